@@ -143,7 +143,7 @@ def psame(a, b):
     return same(a, b)
 
 
-def psame_tol(a, b, rel=1e-14):
+def psame_tol(a, b, rel=1e-12):
     """psame() with a relative tolerance on floats (second-generation texts: ruamel re-formats the ScalarFloat objects
     its round-trip loader returned and may move the 16th digit; trusted library behaviour, not asserted)."""
     a, b = _unxs(a), _unxs(b)
@@ -151,8 +151,8 @@ def psame_tol(a, b, rel=1e-14):
         return set(a) == set(b) and all(psame_tol(a[k], b[k], rel) for k in a)
     if isinstance(a, list) and isinstance(b, list):
         return len(a) == len(b) and all(psame_tol(x, y, rel) for x, y in zip(a, b))
-    if isinstance(a, float) and isinstance(b, float) and not isinstance(a, bool) and math.isfinite(a) and math.isfinite(b):
-        return abs(a - b) <= rel * max(abs(a), abs(b))
+    if isinstance(a, float) and isinstance(b, float) and math.isfinite(a) and math.isfinite(b):
+        return abs(a - b) <= rel * max(abs(a), abs(b)) or max(abs(a), abs(b)) < 1e-300  # subnormals carry fewer digits
     return same(a, b)
 
 
@@ -858,6 +858,14 @@ def _live_version():
     return __version__
 
 
+def _scratch_file(name):
+    """Absolute path in the private scratch directory of this process (never relative to the cwd: a worker process that
+    runs a second shard has had its first scratch directory removed)."""
+    from vp import env
+
+    return os.path.join(env.scratch_dir(), name)
+
+
 def _rm(*paths):
     for p in paths:
         try:
@@ -956,7 +964,7 @@ def documents_execute(case):
     if any(ch.get("e") == "default" and not ch.get("skip") for ch in case["changes"]):
         out.label("reassigned-default")
     user = list(case["userSet"]) if style == "medium" else []
-    path, userfile = "c17_doc.yaml", "c17_user.yaml"
+    path, userfile = _scratch_file("c17_doc.yaml"), _scratch_file("c17_user.yaml")
     try:
         # ---- write
         if via == "string":
@@ -1128,7 +1136,7 @@ def handwritten_execute(case):
         expect[key] = plain(exp)
     out.label("file:invalid-value" if first_bad else "file:unknown-key" if unknown else "file:all-valid")
     out.nontrivial = len([k for k in seen if k in cat]) >= 2 and (first_bad is not None or bool(unknown) or any(cat[k]["container"] for k in seen if k in cat))
-    path = "c17_hand.yaml"
+    path = _scratch_file("c17_hand.yaml")
     try:
         raised = reader = None
         mode0, stdin0 = context.CURRENT_MODE, sys.stdin
@@ -1239,7 +1247,7 @@ def renames_execute(case):
     if mode == "skip":
         out.label("excluded:" + case["skip"])
         return out
-    path = "c17_ren.yaml"
+    path = _scratch_file("c17_ren.yaml")
     try:
         if mode == "renamer":
             cs = _fresh()
@@ -1582,20 +1590,20 @@ PARTS = [
               "style (stream or file), the first also in full and the second in medium style, with the complete `documents` oracle; "
               "non-trivial = every written document",
          bound=lambda t: "all settings x <= %d values x {short, medium, full}" % (8 if t == "quick" else 40)),
-    Part("assign", assign_execute, strategy=assign_strategy, budget={"quick": 2000, "thorough": 80000}, procs={"quick": 4, "thorough": 16},
+    Part("assign", assign_execute, strategy=assign_strategy, budget={"quick": 1500, "thorough": 80000}, procs={"quick": 4, "thorough": 16},
          rule="Hypothesis: histories of 1-10 assignments on one Settings object; the setting is drawn uniformly (nested and container "
               "settings boosted), the value from the setting's introspected schema (Coerce/Range/In/Any/list; hand-written generators "
               "for crossSectionControl, cycles, tightCouplingSettings; YAML-hostile strings; falsy values; the default) incl. near misses; "
               "oracle after every step: schema(v) on an independent Setting copy raises <=> assignment raises, stored == schema(v), a refused "
               "value leaves the previous one, no other setting moves, by-construction expectation of well-formed / near-miss values agrees "
               "with the schema; non-trivial = at least one accepted off-default value and one refused value"),
-    Part("documents", documents_execute, strategy=documents_strategy, budget={"quick": 1500, "thorough": 100000}, procs={"quick": 6, "thorough": 16},
+    Part("documents", documents_execute, strategy=documents_strategy, budget={"quick": 1200, "thorough": 100000}, procs={"quick": 6, "thorough": 16},
          rule="Hypothesis: 0-15 settings changed at once -> written by armi in short/medium/full style to a stream or a scratch file -> read "
               "by armi into a fresh Settings; oracle: every setting equal to the value before writing (versions modulo the armi entry), "
               "default settings still at default, the text parsed with ruamel alone has exactly the expected top-level keys per style "
               "(short: off-default + versions; medium: + listed user settings; full: all) and holds the stored values, writing does not "
               "change the settings, the re-written read-back holds the same data; non-trivial = >= 3 settings off default incl. one container"),
-    Part("handwritten", handwritten_execute, strategy=handwritten_strategy, budget={"quick": 1600, "thorough": 80000}, procs={"quick": 3, "thorough": 16},
+    Part("handwritten", handwritten_execute, strategy=handwritten_strategy, budget={"quick": 1200, "thorough": 80000}, procs={"quick": 3, "thorough": 16},
          rule="Hypothesis: settings texts produced without armi (ruamel block or flow style) from 0-8 entries (valid values, near misses, "
               "unknown keys, old names) read into a Settings that already holds 0-3 changes; oracle in file order with the values as an "
               "independent YAML parse sees them: first value its schema rejects => reading raises (InvalidSettingsFileError for files) and the "
@@ -1606,7 +1614,7 @@ PARTS = [
               "invalid value lands on / is refused by the new setting; synthetic settings for active, not-yet-expired, expired, colliding "
               "old names and an old name equal to a current name",
          bound=lambda t: "all oldNames of the configured App x {string, file} x 3 values + 5 synthetic expiry shapes"),
-    Part("copies", copies_execute, strategy=copies_strategy, budget={"quick": 800, "thorough": 40000}, procs={"quick": 3, "thorough": 16},
+    Part("copies", copies_execute, strategy=copies_strategy, budget={"quick": 600, "thorough": 40000}, procs={"quick": 3, "thorough": 16},
          rule="Hypothesis: a Settings with 0-10 changes is copied by modified(newSettings)/duplicate()/deepcopy/pickle and the copy is "
               "changed by assignment and by in-place mutation of every list/dict/XS value (and vice versa); oracle: the original's snapshot, "
               "the defaults of new Settings objects and an earlier duplicate never change, the copy holds schema(v) for the modified settings "
